@@ -101,3 +101,20 @@ func MaskTime(raw string) string {
 func (r Result) Describe() string {
 	return fmt.Sprintf("score=%v move=%v ponder=%v nodes=%d", r.Score, r.Move, r.Ponder, r.Nodes)
 }
+
+// RunPlain performs one search the way the UCI driver does: no Counters option is passed; the
+// node count is read from the last output line.
+func RunPlain(s *search.Search, b *board.Board, opts ...search.Option) Result {
+	var buf bytes.Buffer
+	all := append([]search.Option{}, opts...)
+	all = append(all, search.WithOutput(&buf))
+	sc, m, p := s.Go(b, all...)
+	r := Result{Score: sc, Move: m, Ponder: p, Raw: buf.String()}
+	r.Lines, r.BadLine = Parse(r.Raw)
+	for _, l := range r.Lines {
+		if l.Nodes > r.Nodes {
+			r.Nodes = l.Nodes
+		}
+	}
+	return r
+}
